@@ -34,6 +34,12 @@ def compile_text(text, scope, start_year=2000, until_year=2050, tz_version='veri
             ex.parse()
             rules_map, zones_map, links_map = ex.get_data()
             in_zones, in_links, in_rules = set(zones_map), set(links_map), set(rules_map)
+            # independent scan of the source text: a name the Extractor itself loses must still be accounted for
+            for line in text.splitlines():
+                tok = line.split('#')[0].split()
+                if len(tok) >= 2 and tok[0] == 'Zone': in_zones.add(tok[1])
+                elif len(tok) >= 3 and tok[0] == 'Link': in_links.add(tok[2])
+                elif len(tok) >= 2 and tok[0] == 'Rule': in_rules.add(tok[1])
             tr = Transformer(zones_map, rules_map, links_map, scope, start_year, until_year, until_at_granularity, offset_granularity, strict)
             tr.transform()
             (zones_map, rules_map, links_map, removed_zones, removed_policies, removed_links,
